@@ -73,11 +73,22 @@ theorem applyOps_value (win : Win) (ops : List Op) : ∀ (s : Screen) (x y : Int
       · left; rfl
     · right; exact ⟨o', List.mem_cons_of_mem _ ho', hx, hy, hv⟩
 
-/-- **Display containment.**  `ops` = the `SetCell` calls of a text helper on a right-nested window:
-    every cluster fits in the window's row and carries its display width.  Then every screen cell
-    outside the clip region displays after the calls what it displayed before. -/
-theorem calls_display_clip (X : Ctx) (hX : X.Ok) (win : Win) (hn : rightNested win) (s : Screen) (hwf : s.WF)
-    (ops : List Op) (hfit : ∀ o ∈ ops, o.col + o.cell.w ≤ win.width) (hmeas : ∀ o ∈ ops, Meas X.lib o.cell)
+/-- The display width of a cell a text helper writes is the width it stores. -/
+theorem cellWidth_of_meas (X : Ctx) (hX : X.Ok) (c : VaxisModel.Model.Window.Cell) (hm : Meas X.lib c) :
+    cellWidth X.cw (X.I.cell c) = c.w := by
+  have hm' : c.w = (X.cw (X.I.gOf c.g) : Int) := by rw [← hX.coh]; exact hm
+  simp only [cellWidth, Interp.cell]
+  by_cases h0 : c.w = 0
+  · simp only [h0, if_true]; rw [← hm', h0]
+  · simp only [h0, if_false]
+
+/-- **Display containment.**  `ops` = `SetCell` calls on a right-nested window each of which is either
+    rejected by the window itself (`col ≥ width`) or holds a glyph whose display width fits in the
+    rest of the window's row.  Then every screen cell outside the clip region displays after the
+    calls what it displayed before (and `NoOverhang` is re-established). -/
+theorem calls_display_clip (X : Ctx) (win : Win) (hn : rightNested win) (s : Screen) (hwf : s.WF)
+    (ops : List Op)
+    (hfit : ∀ o ∈ ops, win.width ≤ o.col ∨ o.col + cellWidth X.cw (X.I.cell o.cell) ≤ win.width)
     (x y : Nat) (hy : (y : Int) < s.rows)
     (hold : NoOverhang X.cw (rowOf X.I s y) (rightEdge win s))
     (hout : ¬ visible win s (x : Int) (y : Int)) :
@@ -107,23 +118,23 @@ theorem calls_display_clip (X : Ctx) (hX : X.Ok) (win : Win) (hn : rightNested w
   have hnew : NoOverhang X.cw (rowOf X.I (applyOps win s ops) y) (rightEdge win s) := by
     intro p c hp hc
     rw [rowOf_get] at hc
-    rcases applyOps_value win ops s (p : Int) (y : Int) with h | ⟨o, ho, hpx, _, hv⟩
-    · rw [h, ← rowOf_get] at hc
+    by_cases hch : (applyOps win s ops).get (p : Int) (y : Int) = s.get (p : Int) (y : Int)
+    · rw [hch, ← rowOf_get] at hc
       rw [hlen]
       exact hold p c hp hc
-    · rw [hv] at hc
-      simp only [Option.map_some, Option.some.injEq] at hc
-      subst hc
-      have hw : cellWidth X.cw (X.I.cell o.cell) = o.cell.w := by
-        have hm : o.cell.w = (X.cw (X.I.gOf o.cell.g) : Int) := by rw [← hX.coh]; exact hmeas o ho
-        simp only [cellWidth, Interp.cell]
-        by_cases h0 : o.cell.w = 0
-        · simp only [h0, if_true]; rw [← hm, h0]
-        · simp only [h0, if_false]
-      rw [hw, hlen, hlen0]
-      have := hfit o ho
-      simp only [rightEdge] at hp ⊢
-      omega
+    · have hvis := (applyOps_changed win ops s _ _ hch).1
+      rcases applyOps_value win ops s (p : Int) (y : Int) with h | ⟨o, ho, hpx, _, hv⟩
+      · exact absurd h hch
+      · rw [hv] at hc
+        simp only [Option.map_some, Option.some.injEq] at hc
+        subst hc
+        have hown := covers_own win _ _ hvis.1
+        simp only [inOwnRect] at hown
+        rcases hfit o ho with hrej | hf
+        · omega
+        · rw [hlen, hlen0]
+          simp only [rightEdge] at hp ⊢
+          omega
   refine ⟨?_, hnew⟩
   simp only [displayRow]
   by_cases hleft : ∀ p : Nat, p ≤ x → ¬ visible win s (p : Int) (y : Int)
@@ -157,6 +168,14 @@ theorem calls_display_clip (X : Ctx) (hX : X.Ok) (win : Win) (hn : rightNested w
     simp only [rightEdge] at hq
     omega
 
+/-- From the helpers' facts: every call fits (`…_fits`) and carries its display width (`Meas`). -/
+theorem fit_of_meas (X : Ctx) (hX : X.Ok) (win : Win) (ops : List Op)
+    (hfit : ∀ o ∈ ops, win.width ≤ o.col ∨ o.col + o.cell.w ≤ win.width) (hmeas : ∀ o ∈ ops, Meas X.lib o.cell) :
+    ∀ o ∈ ops, win.width ≤ o.col ∨ o.col + cellWidth X.cw (X.I.cell o.cell) ≤ win.width := by
+  intro o ho
+  rw [cellWidth_of_meas X hX _ (hmeas o ho)]
+  exact hfit o ho
+
 /-! ### the four text helpers -/
 
 theorem lib_space (X : Ctx) (hX : X.Ok) : X.lib.cw gSpace = 1 := by
@@ -168,8 +187,9 @@ theorem print_display_clip (X : Ctx) (hX : X.Ok) (win : Win) (hn : rightNested w
     (hold : NoOverhang X.cw (rowOf X.I s y) (rightEdge win s)) (hout : ¬ visible win s (x : Int) (y : Int)) :
     (displayRow X (print X.lib X.rm win s segs).1 y)[x]? = (displayRow X s y)[x]? ∧
     NoOverhang X.cw (rowOf X.I (print X.lib X.rm win s segs).1 y) (rightEdge win s) :=
-  calls_display_clip X hX win hn s hwf _ (VaxisModel.Props.C11.print_fits X.lib X.rm win segs)
-    (fun o ho => printGo_meas X.lib X.rm _ _ _ (flatten_ok X.lib X.rm (lib_space X hX) segs htext) _ _ o ho)
+  calls_display_clip X win hn s hwf _
+    (fit_of_meas X hX win _ (fun o ho => Or.inr (VaxisModel.Props.C11.print_fits X.lib X.rm win segs o ho))
+      (fun o ho => printGo_meas X.lib X.rm _ _ _ (flatten_ok X.lib X.rm (lib_space X hX) segs htext) _ _ o ho))
     x y hy hold hout
 
 /-- `Wrap`. -/
@@ -178,7 +198,8 @@ theorem wrap_display_clip (X : Ctx) (hX : X.Ok) (win : Win) (hn : rightNested wi
     (hold : NoOverhang X.cw (rowOf X.I s y) (rightEdge win s)) (hout : ¬ visible win s (x : Int) (y : Int)) :
     (displayRow X (wrap X.lib X.rm win s segs).1 y)[x]? = (displayRow X s y)[x]? ∧
     NoOverhang X.cw (rowOf X.I (wrap X.lib X.rm win s segs).1 y) (rightEdge win s) := by
-  refine calls_display_clip X hX win hn s hwf _ (VaxisModel.Props.C11.wrap_fits X.lib X.rm win segs) (fun o ho => ?_) x y hy hold hout
+  refine calls_display_clip X win hn s hwf _
+    (fit_of_meas X hX win _ (fun o ho => Or.inr (VaxisModel.Props.C11.wrap_fits X.lib X.rm win segs o ho)) (fun o ho => ?_)) x y hy hold hout
   have hstored : wrapRemeasured = true := by decide
   simp only [wrapOps, hstored] at ho
   exact wrapGo_meas X.lib X.rm (lib_space X hX) _ _ segs htext _ _ o ho
@@ -189,11 +210,54 @@ theorem println_display_clip (X : Ctx) (hX : X.Ok) (win : Win) (hn : rightNested
     (hold : NoOverhang X.cw (rowOf X.I s y) (rightEdge win s)) (hout : ¬ visible win s (x : Int) (y : Int)) :
     (displayRow X (println X.lib X.rm win s row segs) y)[x]? = (displayRow X s y)[x]? ∧
     NoOverhang X.cw (rowOf X.I (println X.lib X.rm win s row segs) y) (rightEdge win s) := by
-  refine calls_display_clip X hX win hn s hwf _ (VaxisModel.Props.C11.println_fits X.lib X.rm win row segs) (fun o ho => ?_) x y hy hold hout
+  refine calls_display_clip X win hn s hwf _
+    (fit_of_meas X hX win _ (fun o ho => Or.inr (VaxisModel.Props.C11.println_fits X.lib X.rm win row segs o ho)) (fun o ho => ?_)) x y hy hold hout
   simp only [printlnOps] at ho
   split at ho
   · cases ho
   · exact lnGo_meas X.lib X.rm _ _ _ (flatten_ok X.lib X.rm (lib_space X hX) segs htext) _ o ho
+
+/-- `PrintTruncate` (the ellipsis has display width 1, as the app-level theorem assumes). -/
+theorem printTruncate_display_clip (X : Ctx) (hX : X.Ok) (win : Win) (hn : rightNested win) (s : Screen) (hwf : s.WF)
+    (row : Int) (segs : List (Nat × List Raw)) (htext : TextOk X segs) (hell : X.cw "e280a6" = 1)
+    (x y : Nat) (hy : (y : Int) < s.rows)
+    (hold : NoOverhang X.cw (rowOf X.I s y) (rightEdge win s)) (hout : ¬ visible win s (x : Int) (y : Int)) :
+    (displayRow X (printTruncate X.lib X.rm win s row segs) y)[x]? = (displayRow X s y)[x]? ∧
+    NoOverhang X.cw (rowOf X.I (printTruncate X.lib X.rm win s row segs) y) (rightEdge win s) := by
+  have hell' : X.lib.cw gEllipsis = 1 := by rw [hX.coh, hX.std.ellipsis, hell]; rfl
+  refine calls_display_clip X win hn s hwf _
+    (fit_of_meas X hX win _ (VaxisModel.Props.C11.printTruncate_fits X.lib X.rm win row segs) (fun o ho => ?_)) x y hy hold hout
+  simp only [printTruncateOps] at ho
+  split at ho
+  · cases ho
+  · exact truncGo_meas X.lib X.rm hell' _ _ _ (flatten_ok X.lib X.rm (lib_space X hX) segs htext) _ o ho
+
+/-- `SetCell`: a cell whose glyph fits in the rest of the window's row (always, for a glyph of width
+    ≤ 1).  Without the hypothesis the statement is false of the code — finding F111b. -/
+theorem setCell_display_clip (X : Ctx) (win : Win) (hn : rightNested win) (s : Screen) (hwf : s.WF)
+    (col row : Int) (c : VaxisModel.Model.Window.Cell)
+    (hfit : win.width ≤ col ∨ col + cellWidth X.cw (X.I.cell c) ≤ win.width)
+    (x y : Nat) (hy : (y : Int) < s.rows)
+    (hold : NoOverhang X.cw (rowOf X.I s y) (rightEdge win s)) (hout : ¬ visible win s (x : Int) (y : Int)) :
+    (displayRow X (win.setCell s col row c) y)[x]? = (displayRow X s y)[x]? ∧
+    NoOverhang X.cw (rowOf X.I (win.setCell s col row c) y) (rightEdge win s) :=
+  calls_display_clip X win hn s hwf [⟨col, row, c⟩]
+    (fun o ho => by simp only [List.mem_singleton] at ho; subst ho; exact hfit) x y hy hold hout
+
+/-- `Fill` / `Clear`: a glyph of display width ≤ 1 (`Clear` fills with a blank of width 1). -/
+theorem fill_display_clip (X : Ctx) (win : Win) (hn : rightNested win) (s : Screen) (hwf : s.WF)
+    (c : VaxisModel.Model.Window.Cell) (hw : cellWidth X.cw (X.I.cell c) ≤ 1)
+    (x y : Nat) (hy : (y : Int) < s.rows)
+    (hold : NoOverhang X.cw (rowOf X.I s y) (rightEdge win s)) (hout : ¬ visible win s (x : Int) (y : Int)) :
+    (displayRow X (fill win s c) y)[x]? = (displayRow X s y)[x]? ∧
+    NoOverhang X.cw (rowOf X.I (fill win s c) y) (rightEdge win s) := by
+  refine calls_display_clip X win hn s hwf (fillOps win c) (fun o ho => ?_) x y hy hold hout
+  simp only [fillOps, List.mem_flatMap, List.mem_map] at ho
+  obtain ⟨r, _, cc, hcc, rfl⟩ := ho
+  have := (mem_upTo _ _).1 hcc
+  right
+  simp only
+  omega
 
 /-- Non-vacuity (the F111 scene): "a" in style 1 right of a 3-column window on a 4×2 screen, then
     `Print("aa世")` in the window: column 3 displays the same before and after, and the hypotheses
